@@ -203,7 +203,24 @@ static int iv_fd_epoll_poll(struct iv_state *st,
 
 	run_events = 0;
 	for (i = 0; i < ret; i++) {
-		if (batch[i].data.ptr != st) {
+		if (batch[i].data.ptr == st) {
+			run_events = 1;
+		} else if (batch[i].data.ptr == &st->time) {
+			uint64_t cnt;
+			int ret;
+
+			/*
+			 * This thread created its timerfd before a
+			 * timerfd_create() failure in another thread
+			 * switched the process to the plain epoll method.
+			 */
+			ret = read(st->u.epoll.timer_fd, &cnt, sizeof(cnt));
+			if (ret < 0) {
+				iv_fatal("iv_fd_epoll_poll: got timerfd "
+					 "read error %d[%s]", errno,
+					 strerror(errno));
+			}
+		} else {
 			struct iv_fd_ *fd;
 			uint32_t events;
 
@@ -218,8 +235,6 @@ static int iv_fd_epoll_poll(struct iv_state *st,
 
 			if (events & (EPOLLERR | EPOLLHUP))
 				iv_fd_make_ready(active, fd, MASKERR);
-		} else {
-			run_events = 1;
 		}
 	}
 
